@@ -120,3 +120,23 @@ package client
 //@   locks c
 //@   requires c != nil
 //@   ensures res1 == nil <==> res0 != nil
+
+// ---- CacheClient: the client-library view of a target ------------------------------
+// Each decoded notification is applied to the client's own tree exactly as received -
+// an update stores value and timestamp under the notification's path, a delete removes
+// that path - the sync marker closes the synced channel once (never twice), and the
+// application's handler, if any, sees the same notification afterwards.
+// synced is only ever closed, never sent on.
+//@ flagchan CacheClient.synced
+//@ func field CacheClient.clientHandler (n)
+//@   note the application's handler is assumed not to touch the client
+//@ func (*CacheClient).defaultHandler
+//@   props C01 C12 C18
+//@   requires c != nil && c.Tree != nil && c.synced != nil
+//@   modifies ghost tstore, ghost treal, heap(ctree.Tree.leafBranch), closed(c.synced)
+//@   assert at call (*Tree).Add#0: [update-stored-under-its-own-path C01] isa(n.(Update)) && arg0 == c.Tree && view(arg1) == view(n.(Update).Path)
+//@     && isa(arg2.(TreeVal)) && arg2.(TreeVal).Val == n.(Update).Val && arg2.(TreeVal).TS == n.(Update).TS
+//@   assert at call (*Tree).Delete#0: [delete-removes-its-own-path C01] isa(n.(Delete)) && arg0 == c.Tree && view(arg1) == view(n.(Delete).Path)
+//@   assert at call field CacheClient.clientHandler#0: [application-sees-the-same-notification C01] arg0 == n
+//@   ensures [sync-closes-synced C01] isa(n.(Sync)) ==> closed(c.synced)
+//@   ensures [unknown-kinds-refused C12] !isa(n.(Connected)) && !isa(n.(Error)) && !isa(n.(Update)) && !isa(n.(Delete)) && !isa(n.(Sync)) ==> res0 != nil
